@@ -171,8 +171,11 @@ void Server::Impl::onTcpReceived(const TcpServer::ConnToken &ct, Buffer &buff)
                 //! 标记当前请求为close请求
                 conn->close_index = conn->req_index;
                 LogDbg("mark close at %d", conn->close_index);
-
-                tcp_server_.shutdown(ct, SHUT_RD);
+                /**
+                 * 注意：这里不能 shutdown(ct, SHUT_RD)。否则下一轮读事件会读到 0 字节，
+                 * 连接被当成对端已断开而销毁，尚未提交（或尚未发送完）的回复就丢失了。
+                 * 此后收到的数据由本函数开头对 close_index 的检查负责丢弃。
+                 */
             }
 
             auto sp_ctx = make_shared<Context>(wp_parent_, ct, conn->req_index++, req);
